@@ -61,6 +61,7 @@ class Interp:
         self.memo = {}
         self.paths = 0
         self.record_calls = tuple(record_calls)
+        self.const_env = {}  # const generic parameters bound by a rule: name -> abstract value
         self.oracle = None   # optional: decides comparisons between symbolic scalars (sa/order.py)
         self.models = dict(MODELS)
         if models:
@@ -210,6 +211,8 @@ class Interp:
                     return c(cst["int"] == "1")
                 return c(int(cst["int"]))
             v = cst.get("v", "")
+            if v in self.const_env:
+                return self.const_env[v]   # a const generic parameter bound by the rule (visit_loop::<INVERT>)
             ty = self.F.ty(cst["ty"])
             if ty.kind() == "adt" and "::" in v:
                 # unit-like enum constant
@@ -257,6 +260,9 @@ class Interp:
                     pass
             if a[0] == "c" and b[0] == "c" and op in ("eq", "ne"):
                 return c((a[1] == b[1]) == (op == "eq"))
+            if op == "bitxor" and ((a[0] == "c" and isinstance(a[1], bool)) or (b[0] == "c" and isinstance(b[1], bool))):
+                k_, x_ = (a, b) if a[0] == "c" else (b, a)
+                return x_ if k_[1] is False else ("op", "not", (x_,))
             if self.oracle is not None and op in ("eq", "ne", "lt", "le", "gt", "ge"):
                 r = self.oracle(op, a, b)
                 if r is not None:
@@ -1163,7 +1169,22 @@ def m_option_flatten(I, fn, st, t, args, depth):
         yield (val[3][0] if val[2] == "Some" else ("e", OPT, "None", ())), None, cs
 
 
+def m_partial_cmp(I, fn, st, t, args, depth):
+    """PartialOrd::partial_cmp of a foreign type (f64 ..): Some(ordering) or None, as two outcomes, so that `Ok(x.partial_cmp(y))` and
+    `x.partial_cmp(y).map(Ok)` summarise alike; a crate-local impl is interpreted from its MIR"""
+    res = t["callee"].get("resolved")
+    target = I.F.fn(res) if res else None
+    if target is not None and target.mir and not target.in_test_file():
+        for o in I.run(target, args, depth + 1):
+            yield o.ret, None, o.conds
+        return
+    term_ = ("call", "std::cmp::PartialOrd::partial_cmp", tuple(_short(a) for a in args))
+    yield ("e", OPT, "Some", (term_,)), None, ((("ordered", _short(args[0]), _short(args[1])), "1"),)
+    yield ("e", OPT, "None", ()), None, ((("ordered", _short(args[0]), _short(args[1])), "0"),)
+
+
 MODELS.update({
+    "std::cmp::PartialOrd::partial_cmp": m_partial_cmp,
     "std::option::Option::<T>::is_some_and": _m_pred(OPT, "Some", False),
     "std::option::Option::<T>::is_none_or": _m_pred(OPT, "Some", True),
     "std::result::Result::<T, E>::is_ok_and": _m_pred(RES, "Ok", False),
